@@ -11,17 +11,25 @@ from vsc.model.field_composite_model import FieldCompositeModel
 class ExprIndexedDynRefModel(ExprModel):
     """Constraint that is a reference to a dynamic-constraint block"""
     
-    def __init__(self, root : ExprModel, idx):
+    def __init__(self, root : ExprModel, idx, name=None):
         super().__init__()
         self.root = root
         self.idx = idx
+        # Optional name of the dynamic constraint matching idx
+        self.name = name
+        
+    def get_constraint(self):
+        """Returns the referenced dynamic-constraint block"""
+        fm : FieldCompositeModel = Expr2FieldVisitor().field(self.root, True)
+        idx = self.idx
+        # The index was taken from the declared (element) type. An object of
+        # a derived type can hold the same block at a different position
+        if self.name is not None and self.name in fm.constraint_dynamic_m.keys():
+            idx = fm.constraint_dynamic_m[self.name]
+        return fm.constraint_dynamic_model_l[idx]
         
     def build(self, btor, ctx_width=-1):
-#        from vsc.visitors import ModelPrettyPrinter
-        fm : FieldCompositeModel = Expr2FieldVisitor().field(self.root, True)
-        c = fm.constraint_dynamic_model_l[self.idx]
-        
-        return c.build(btor)
+        return self.get_constraint().build(btor)
         
     def accept(self, v):
         v.visit_expr_indexed_dynref(self)
@@ -33,4 +41,4 @@ class ExprIndexedDynRefModel(ExprModel):
         return False
     
     def __str__(self):
-        return "ExprIndexedDynRefModel(" + self.c.name + ")"
+        return "ExprIndexedDynRefModel(" + str(self.name) + ")"
